@@ -50,16 +50,16 @@ Print Assumptions C20_literal_comparisons_no_match.
    navigation copies the value reached). *)
 From JP Require Import Json Text Tree Grammar Actions KeyDefs ChainParse ChainAddr FiltChain FiltAddr FiltChainAddr.
 From Coq Require Import List. Import ListNotations.
-Lemma opaque_reaches_nothing parse_float root x r t i s l : nav_allf parse_float root (x :: r) (l, VOpaque t i s) = [].
+Lemma opaque_reaches_nothing parse_float regex_match root x r t i s l : nav_allf parse_float regex_match root (x :: r) (l, VOpaque t i s) = [].
 Proof.
-  cbn [nav_allf]. assert (E : nav1f parse_float root x (l, VOpaque t i s) = []); [|rewrite E; reflexivity].
+  cbn [nav_allf]. assert (E : nav1f parse_float regex_match root x (l, VOpaque t i s) = []); [|rewrite E; reflexivity].
   destruct x as [[k|k]|i0|i0 o lit|i0|d]; cbn [nav1f nav1r navf navp fst snd]; try reflexivity.
   destruct k; reflexivity.
 Qed.
 Theorem C20_foreign_root_from_text : forall cfg parse_float regex_ok ffun afun regex_match,
   (forall f v w, small v -> ffun f v = Some w -> small w) ->
   (forall f l w, Forall small l -> afun f l = Some w -> small w) ->
-  forall x r t i s st, forallb fstep_ok (x :: r) = true -> forallb (fstep_okp parse_float) (x :: r) = true -> ok st ->
+  forall x r t i s st, forallb fstep_ok (x :: r) = true -> forallb (fstep_okp parse_float regex_ok) (x :: r) = true -> ok st ->
   exists tr e, parse_with cfg parse_float regex_ok jsonpath_grammar (fchain_path (x :: r)) = ParseOk tr /\
                fst (eval_run ffun afun regex_match tr (VOpaque t i s) st) = OErr e.
 Proof.
